@@ -1320,6 +1320,146 @@ theorem step_ids (st : St) (ev : Ev) (base : List (Nat × Bytes)) (hj : ∀ ip s
     · exact h x hx
     · subst hx; exact hj ip sp c rfl
 
+/-! ### re-entry through the re-dispatch -/
+
+theorem exitData_exitIds (st : St) (srcIp : Bytes) (cid : Nat) (dest : Dest) (payload : Bytes) :
+    (exitData st srcIp cid dest payload).1.exitIds = st.exitIds := by
+  unfold exitData; simp only; split <;> rfl
+
+theorem actOnData_exitIds (e : DEnv) (st : St) (a : Act) : (actOnData e st a).1.exitIds = st.exitIds := by
+  by_cases ha : a = .exitData
+  · subst ha; exact exitData_exitIds _ _ _ _ _
+  · rw [(actOnData_loc e st a ha).1]
+
+theorem interpOnData_exitIds (e : DEnv) : ∀ (p : Prog) (st : St), (interpOnData e p st).1.exitIds = st.exitIds
+  | .done, _ => rfl
+  | .act a k, st => by
+    simp only [interpOnData]
+    rw [interpOnData_exitIds e k, actOnData_exitIds]
+  | .ite c t el, st => by
+    simp only [interpOnData]
+    split
+    · exact interpOnData_exitIds e t st
+    · exact interpOnData_exitIds e el st
+
+theorem step_exitIds (st : St) (ev : Ev) : (step st ev).1.exitIds = st.exitIds := by
+  have via : ∀ cid, (viaSock st cid ev).1.exitIds = st.exitIds := by
+    intro cid; unfold viaSock; split <;> rfl
+  cases ev with
+  | setFlags f => rfl
+  | data ip sp c d p => exact interpOnData_exitIds _ _ _
+  | open4 c => exact via c
+  | open6 c => exact via c
+  | resolved c idx infos => exact via c
+  | outside c v6 host port payload => exact via c
+  | join ip sp c => exact (joinStep_frame _ _ _ _).2.2
+
+/-- a `reenter` output only comes from `deliverOwn` on a payload whose message id is DataPayload's (no safety check needed) -/
+theorem interpOnData_reenter_data (e : DEnv) : ∀ (p : Prog) (st : St) (c' : Nat),
+    Out.reenter c' ∈ (interpOnData e p st).2 → e.payload[22]? = some (UInt8.ofNat Gen.DATA_MSG_ID)
+  | .done, _, _ => by intro h; simp [interpOnData] at h
+  | .act a k, st, c' => by
+    intro h
+    simp only [interpOnData, List.mem_append] at h
+    rcases h with h | h
+    · cases a with
+      | deliverOwn =>
+        simp only [actOnData] at h
+        split at h
+        · rename_i hd; simpa using hd
+        · simp at h
+      | exitData =>
+        obtain ⟨s', hso⟩ := exitData_sockout st e.srcIp e.cid e.dest e.payload _ h
+        rcases hso with (⟨_, _, _, he, _⟩ | ⟨_, _, _, he, _⟩) | ⟨_, _, he, _⟩ <;> cases he
+      | deliverOther => simp [actOnData] at h
+      | deliverRaw => simp [actOnData] at h
+      | queueAppend => simp [actOnData] at h
+      | transportSend => simp [actOnData] at h
+      | startResolve => simp [actOnData] at h
+      | tunnelData => simp [actOnData] at h
+      | enable => simp [actOnData] at h
+      | sendto => simp [actOnData] at h
+    · exact interpOnData_reenter_data e k _ c' h
+  | .ite c t el, st, c' => by
+    intro h
+    simp only [interpOnData] at h
+    split at h
+    · exact interpOnData_reenter_data e t st c' h
+    · exact interpOnData_reenter_data e el st c' h
+
+/-- … and, for a program passing `safeOnData`, only when that id is one of the node's exit message ids -/
+theorem interpOnData_reenter_exit (e : DEnv) (st0 : St) : ∀ (p : Prog) (st : St) (nn no xm : Bool), st.exitIds = st0.exitIds →
+    (xm = true → condOnData e st0 .exitMessage = true) → safeOnData nn no xm p = true →
+    ∀ c', Out.reenter c' ∈ (interpOnData e p st).2 → condOnData e st0 .exitMessage = true
+  | .done, _, _, _, _, _, _, _ => by intro c' h; simp [interpOnData] at h
+  | .act a k, st, nn, no, xm, hx, hxm, hs => by
+    simp only [safeOnData, Bool.and_eq_true] at hs
+    intro c' h
+    simp only [interpOnData, List.mem_append] at h
+    rcases h with h | h
+    · cases a with
+      | deliverOwn =>
+        have : xm = true := by simpa using hs.1.2
+        exact hxm this
+      | exitData =>
+        obtain ⟨s', hso⟩ := exitData_sockout st e.srcIp e.cid e.dest e.payload _ h
+        rcases hso with (⟨_, _, _, he, _⟩ | ⟨_, _, _, he, _⟩) | ⟨_, _, he, _⟩ <;> cases he
+      | deliverOther => simp [actOnData] at h
+      | deliverRaw => simp [actOnData] at h
+      | queueAppend => simp [actOnData] at h
+      | transportSend => simp [actOnData] at h
+      | startResolve => simp [actOnData] at h
+      | tunnelData => simp [actOnData] at h
+      | enable => simp [actOnData] at h
+      | sendto => simp [actOnData] at h
+    · exact interpOnData_reenter_exit e st0 k (actOnData e st a).1 nn no xm ((actOnData_exitIds e st a).trans hx) hxm hs.2 c' h
+  | .ite c t el, st, nn, no, xm, hx, hxm, hs => by
+    simp only [safeOnData, Bool.and_eq_true] at hs
+    intro c' h
+    simp only [interpOnData] at h
+    by_cases hcc : condOnData e st c = true
+    · simp only [hcc, if_true] at h
+      refine interpOnData_reenter_exit e st0 t st nn no _ hx ?_ hs.1 c' h
+      intro hh
+      rcases (Bool.or_eq_true _ _).mp hh with hh | hh
+      · exact hxm hh
+      · have : c = .exitMessage := by simpa using hh
+        subst this
+        simpa [condOnData, hx] using hcc
+    · have hc' : condOnData e st c = false := by simpa using hcc
+      simp only [hc', Bool.false_eq_true, if_false] at h
+      exact interpOnData_reenter_exit e st0 el st _ _ xm hx hxm hs.2 c' h
+
+theorem viaSock_no_reenter (st : St) (cid : Nat) (ev : Ev) (c' : Nat) : Out.reenter c' ∉ (viaSock st cid ev).2 := by
+  intro h
+  unfold viaSock at h
+  split at h
+  · simp at h
+  · rcases sockStep_out _ _ _ _ _ h with (⟨_, _, _, he, _⟩ | ⟨_, _, _, he, _⟩) | ⟨_, _, he, _⟩ <;> cases he
+
+/-- one step: a re-entry needs DataPayload's id among the node's exit message ids -/
+theorem step_reenter (st : St) (ev : Ev) (c' : Nat) (h : Out.reenter c' ∈ (step st ev).2) :
+    st.exitIds.contains Gen.DATA_MSG_ID = true := by
+  cases ev with
+  | data ip sp c d p =>
+    have h1 := interpOnData_reenter_data ⟨ip, sp, c, d, p⟩ Gen.on_data_prog st c' h
+    have h2 := interpOnData_reenter_exit ⟨ip, sp, c, d, p⟩ st Gen.on_data_prog st false false false rfl (by simp)
+      on_data_prog_safe' c' h
+    simp only at h1
+    simp only [condOnData, h1] at h2
+    have : (UInt8.ofNat Gen.DATA_MSG_ID).toNat = Gen.DATA_MSG_ID := by decide
+    rwa [this] at h2
+  | setFlags f => simp [step] at h
+  | join ip sp c => simp [step] at h
+  | open4 c => exact absurd h (viaSock_no_reenter st c _ c')
+  | open6 c => exact absurd h (viaSock_no_reenter st c _ c')
+  | resolved c idx infos => exact absurd h (viaSock_no_reenter st c _ c')
+  | outside c v6 host port payload => exact absurd h (viaSock_no_reenter st c _ c')
+
+theorem run_exitIds : ∀ (evs : List Ev) (st : St), (run st evs).1.exitIds = st.exitIds
+  | [], _ => rfl
+  | ev :: evs, st => by simp only [run]; rw [run_exitIds evs, step_exitIds]
+
 /-- the (circuit id, source IP) pairs of the CREATEs of a history -/
 def joinPairs : List Ev → List (Nat × Bytes)
   | [] => []
